@@ -18,7 +18,7 @@ OPTS = {b: ("bool", True, False) for b in BOOL}
 OPTS.update({
     "nthreads": ("int", 1, 2), "recursion_limit": ("int", 1500, 2000), "max_line_length": ("int", 80, 100),
     "max_comment_line_length": ("int", 70, 90), "hover_language": ("str", "fortran", "f08"),
-    "source_dirs": ("dirs", ["d1"], ["d2", "d1"]), "excl_paths": ("dirs", ["d1"], ["d2"]), "include_dirs": ("dirs", ["d1"], ["d2"]),
+    "source_dirs": ("dirs", ["d1"], ["."]), "excl_paths": ("dirs", ["d1"], ["d2"]), "include_dirs": ("dirs", ["d1"], ["d2"]),
     "incl_suffixes": ("set", [".inc"], [".h", ".FF"]), "excl_suffixes": ("set", ["_skip.f90"], ["_tmp.f90", "_x.f90"]),
     "pp_suffixes": ("list", [".fpp"], [".F", ".FF"]), "pp_defs": ("json", {"A": "1"}, {"B": "2", "C": ""}),
 })
@@ -27,6 +27,7 @@ DEFAULT = {"nthreads": 1, "recursion_limit": 1000, "max_line_length": -1, "max_c
 NAMES = sorted(OPTS)
 
 
+FNAME = {"fortls": ".fortls", "fortlsrc": ".fortlsrc", "fortlsjson": ".fortls.json", "custom": "my_fortls_options.json"}
 EMPTY = {"dirs": [], "set": [], "list": [], "json": {}, "int": 0, "str": ""}
 
 
@@ -100,7 +101,15 @@ def check(st):
                 if st["file"][o] == "vEmpty" and OPTS[names[o]][0] in ("bool", "int"):
                     return "skip"   # no empty value exists for flags and integers
                 cfg[names[o]] = value_of(names[o], st["file"][o])
-        fpath = os.path.join(root, ".fortls")
+        lay = st.get("layout") or {"name": "fortls", "explicit": False, "decoy": "none"}
+        fname = FNAME[lay["name"]]
+        fpath = os.path.join(root, fname)
+        if lay["explicit"]:
+            args.append("-c " + fname)
+        if lay["decoy"] != "none":
+            # a second, default-named file that gives every involved option a different value
+            other = {names[o]: value_of(names[o], "v2" if st["file"][o] == "v1" else "v1") for o in st["file"] if st["file"][o] != "absent"}
+            json.dump(other, open(os.path.join(root, FNAME[lay["decoy"]]), "w"))
         if kind == "ok":
             json.dump(cfg, open(fpath, "w"))
         elif kind == "invalidJson":
@@ -122,6 +131,8 @@ def check(st):
         resp = [e for e in out if e["t"] in ("resp", "err")]
         msgs = [e for e in out if e["t"] == "note" and e["method"] == "window/showMessage"]
         tags0 = {"file:" + kind}
+        if lay["explicit"] or lay["decoy"] != "none":
+            tags0 |= {"layout:%s%s+%s" % (lay["name"], "(-c)" if lay["explicit"] else "", lay["decoy"])}
         if not resp or resp[0]["t"] != "resp":
             bad.append((tags0 | {"init:failed"}, {"response": resp[:1]}))
         if kind not in ("none", "ok") and not msgs:
@@ -130,9 +141,15 @@ def check(st):
         for o in involved:
             name = names[o]
             f, cl = st["file"][o], st["cli"][o]
-            tag = f if (usable and f != "absent") else (cl if cl != "absent" else "default")
+            tag = st["eff"][o]        # the specification's effective value: v1 / v2 / vEmpty / default
             exp = expected(name, tag, root)
             got = norm(name, getattr(s, name, "<no attribute>"), root)
+            if name == "source_dirs" and tag in ("v1", "v2") and not any(names[x] in ("excl_paths", "incl_suffixes", "excl_suffixes") for x in involved):
+                # the observable effect: exactly the files lying directly in the effective directories are indexed
+                want = sorted(fn for fn in ("d1/a.f90", "d2/b.f90", "top.f90") if (os.path.dirname(fn) or ".") in exp)
+                have = sorted(os.path.relpath(p, root) for p in s.workspace)
+                if have != want:
+                    bad.append((tags0 | {"option:source_dirs", "effect:indexedFiles", "cli:" + cl, "file.value:" + f}, {"option": name, "effective": exp, "expected_files": want, "indexed_files": have}))
             if name == "source_dirs" and tag == "default":
                 continue  # default = discovered directories (C18's business)
             if name == "source_dirs" and any(names[x] == "excl_paths" for x in involved):
@@ -146,7 +163,7 @@ def check(st):
         if any(names[o] == "incremental_sync" for o in involved) and kind in ("ok", "none") and resp and resp[0]["t"] == "resp":
             o = [x for x in involved if names[x] == "incremental_sync"][0]
             f, cl = st["file"][o], st["cli"][o]
-            tag = f if (usable and f != "absent") else (cl if cl != "absent" else "default")
+            tag = st["eff"][o]
             eff = expected("incremental_sync", tag, root)
             caps = resp[0]["result"].get("capabilities", {}).get("textDocumentSync")
             if eff and caps != 2 or (not eff and caps != 1):
